@@ -286,6 +286,12 @@ func (e *Engine) interpretable(fn *ssa.Function) bool {
 		}
 		return false
 	}
+	if hostPkgs[root.Pkg.Pkg.Path()] {
+		// methods on scalar types of the world packages (token.Pos.IsValid, ...) are ordinary code
+		if recv := root.Signature.Recv(); recv != nil && !isHostRecv(recv.Type()) {
+			return true
+		}
+	}
 	return e.isInterpretedPkg(root.Pkg.Pkg.Path())
 }
 
@@ -501,6 +507,18 @@ func (fr *frame) visit(instr ssa.Instruction) continuation {
 		fr.env[instr] = p.iterNext(fr.get(instr.Iter), instr)
 	case *ssa.FieldAddr:
 		x := fr.get(instr.X)
+		if h, isHost := x.(host); isHost {
+			// promoted method call through an embedded struct of a world object (c.object.Exported()):
+			// keep the outer object as receiver, reflection resolves the promotion.
+			st := instr.X.Type().Underlying().(*types.Pointer).Elem().Underlying().(*types.Struct)
+			if st.Field(instr.Field).Embedded() {
+				if nilv, _ := isNilValue(h); nilv {
+					p.runtimePanic("nil pointer dereference", fr.pos(instr))
+				}
+				fr.env[instr] = h
+				break
+			}
+		}
 		ptr, ok := x.(*value)
 		if !ok {
 			p.unsupported(fmt.Sprintf("FieldAddr on %T at %s", x, fr.pos(instr)))
